@@ -143,6 +143,11 @@ def case_strategy(draw: Any, proto: str) -> Dict[str, Any]:
             "len": draw(st.sampled_from([2, 500, 70000])),
             "delay": draw(st.sampled_from([0.0, 0.0, 0.3])),
             "cl": draw(st.booleans())},
+        # the empty line (CRLF) old clients append to a request, in the same write. Only behind
+        # a request that ends the connection (HTTP/1.0), where nothing after it is looked at:
+        # on a connection that stays open h11 answers a bare empty line with 400, which RFC
+        # 7230 3.5 allows ("SHOULD ignore") and C02 does not speak about
+        "stray": draw(st.sampled_from([None, "crlf"])) if opening == "h1.0" else None,
     }
     return case
 
@@ -189,7 +194,9 @@ async def drive_h1(env: Any, case: Dict[str, Any]) -> Any:
     for i, req in enumerate(case["requests"]):
         if case["pace"] != "fast":
             conn.pause_reading(case["kernel"])
-        conn.send(request_bytes(i, req, version))
+        last = i == len(case["requests"]) - 1
+        conn.send(request_bytes(i, req, version)
+                  + (b"\r\n" if case.get("stray") == "crlf" and last else b""))
         await env.settle0()
         if case["pace"] == "paused":
             await env.sleep(case["pause_dt"])
